@@ -154,6 +154,55 @@ func init() {
 		cur.notes = append(cur.notes, args[0].(string)+"="+toString(args[1]))
 		return nil
 	}
+	// vProbe(b, x) []byte: one concrete member of the current path class: the bytes of b followed by the four
+	// little-endian bytes of x under a model of the path condition (nil if the solver gives none). Used to look
+	// for a concrete witness cheaply before an expensive for-all evaluation.
+	h["vProbe"] = func(fr *frame, args []value) value {
+		b := args[0].([]value)
+		var terms []*Term
+		seen := map[*Term]bool{}
+		var vars []*Term
+		add := func(v value) {
+			if sv, ok := v.(sym); ok {
+				terms = append(terms, sv.t)
+				CollectVars(sv.t, seen, &vars)
+			}
+		}
+		for _, v := range b {
+			add(v)
+		}
+		add(args[1])
+		model := map[*Term]uint64{}
+		if len(vars) > 0 {
+			r, m, _ := cur.solver.Check(cur.allGeneral(), cur.dom, vars)
+			if r != Sat {
+				return []value(nil)
+			}
+			model = m
+		}
+		memo := map[*Term]uint64{}
+		conc := func(v value) uint64 {
+			if sv, ok := v.(sym); ok {
+				return Eval(sv.t, model, memo)
+			}
+			switch x := v.(type) {
+			case uint8:
+				return uint64(x)
+			case uint32:
+				return uint64(x)
+			}
+			return 0
+		}
+		out := make([]value, 0, len(b)+4)
+		for _, v := range b {
+			out = append(out, uint8(conc(v)))
+		}
+		x := conc(args[1])
+		for i := 0; i < 4; i++ {
+			out = append(out, uint8(x>>(8*uint(i))))
+		}
+		return out
+	}
 	// vSameBytes(a, b) bool: one Bool term for byte-wise equality (no forking)
 	h["vSameBytes"] = func(fr *frame, args []value) value {
 		a, b := args[0].([]value), args[1].([]value)
